@@ -59,8 +59,12 @@ func c20Scenarios(tier string) []*Scenario {
 				add("c2s-stall", "", RPC{Kind: kind, Client: sends("S", n), Handler: cat(rep("r", k), []string{"w", "ret:ctx"})})
 				// released by the context ending
 				add("c2s-cancel", "cancel", RPC{Kind: kind, Client: sends("S", n), Handler: cat(rep("r", k), []string{"w", "ret:ctx"})})
-				// released by the peer finishing
+				// released by the peer finishing (also when it leaves several final frames behind)
 				add("c2s-finish", "", RPC{Kind: kind, Client: sends("S", n), Handler: cat(rep("r", k), []string{"ret:ok"})})
+				if n >= 2 && k <= 1 {
+					add("c2s-finish", "", RPC{Kind: kind, Client: sends("S", n), Handler: cat(rep("r", k), []string{"t:b", "ret:st:5"})})
+					add("c2s-finish", "", RPC{Kind: kind, Client: sends("S", n), Handler: cat(rep("r", k), []string{"h:a", "t:b", "ret:ok"})})
+				}
 			}
 			// server -> client, with and without a pending header frame
 			for _, kind := range []string{"ss", "bd"} {
